@@ -32,35 +32,50 @@ EVERY register except `result` are EQUAL.  `result` is the generated code's scra
 (conditions, printed values, `get` names, arguments and returned values pass through it); the
 source semantics does not model it.
 
-The fragment (`Sim.FragStmt` / `FragBlock` / `FragOperand(s)` in `Proofs/SimStmts.lean`):
-* value positions (`Sim.RvOK`): literal, variable, register other than `result`, or a call-free
-  expression of any depth that does not read `result`;
-* `setReg r v` (`Sim.SettableReg r`: `r ≠ unitMode`, `r ≠ discForward`), `assign`, `print`,
-  `println`, `printf` (at least as many
+The fragment (`Sim.FragStmt V` / `FragBlock V` / `FragOperand(s) V` in `Proofs/SimStmts.lean`; the
+parameter `V : String → Prop` says which routines may be called FOR THEIR VALUE, see below):
+* value positions WITH CALLS (`Sim.RvC V`, `ExprC V`, `ArgsC V` in `Proofs/SimX.lean`): literal,
+  variable, register other than `result`, `{expression}` of any depth — operators, parentheses and
+  calls `f(args)` —, `[f args]`; the arguments of a call are value positions of the same kind (calls
+  as arguments of calls, to any depth), the parameter names distinct, the routine in `V`;
+  call-free value positions (`Sim.RvOK`) are the same without the calls;
+* `setReg r v` (`Sim.SettableReg r`: `r ≠ unitMode`, `r ≠ discForward`), `assign n v`, `print v`,
+  `println v`, `get v` with value positions WITH CALLS; `printf` (call-free arguments, at least as many
   positional fields as arguments, no field named `result`), `defMacro`, `wait`, `units`, `timeAt`;
-* `actAll`, `setDefault`, `get`, `stage`, `action k ops` with operands `light`/`group`/`location`
-  (name as string or variable), `zone`, `matrixInline`, `matrixBlock` with ANY body of the fragment;
-* `ite` with or without `else`, nested to any depth;
+* `actAll`, `setDefault`, `stage`, `action k ops` with operands `light`/`group`/`location`
+  (name as string or variable), `zone`, `matrixInline` (call-free ranges), `matrixBlock` with ANY body
+  of the fragment;
+* `ite c t e` with or without `else`, nested to any depth, the condition a value position WITH CALLS;
 * EVERY form of `repeat`, nested to any depth, with `brk` anywhere in the bodies (inside `ite`,
-  inside a matrix body, …), with operands that are value positions of the fragment:
-  `repeat_ (.count n)`, `repeat_ (.while_ c)`, `repeat_ .forever`; the index-variable forms
+  inside a matrix body, …): `repeat_ (.count n)` and `repeat_ (.while_ c)` with `n`, `c` value positions
+  WITH CALLS, `repeat_ .forever`; the index-variable forms
   `repeat_ (.range v a b)` (`repeat with v from a to b`), `repeat_ (.interp n v a b)`
   (`repeat n with v from a to b`), `repeat_ (.cycle n v start)` (`repeat n with v cycle [start]`)
+  with call-free operands
   — the body may read and ASSIGN the index variable, and the variable may be read after the loop —;
   and the loops over names `repeat_ (.all lv w)`, `(.groups lv w)`, `(.locations lv w)`,
   `(.iter items lv w)` (`repeat all|group|location|in a and group g and location l … as lv [with
-  v from a to b | with v cycle [s]]`), a `break` or `return` inside which drops the names still
-  waiting on the evaluation stack;
-* `call f ps as` as a statement, of a routine of the script or a built-in, with simple arguments
-  (literal, variable, register other than `result`) and distinct parameter names — any depth of
+  v from a to b | with v cycle [s]]`, call-free names and operands), a `break` or `return` inside
+  which drops the names still waiting on the evaluation stack;
+* `call f ps as` as a statement and `ret v` from any loop depth inside a routine, arguments and
+  returned value being value positions WITH CALLS — any depth of
   nesting and recursion (the induction is on the fuel of `Sem`, not on the program), also from
-  inside loops over names (the callee runs above the caller's evaluation stack); `ret v`
-  from any loop depth inside a routine.  The routines are given by the hypothesis
-  `Sim.RoutinesAt img R`: every routine of the table `R` has a body of the fragment whose code,
+  inside loops over names and from inside expressions (the callee runs above the caller's evaluation
+  stack, with the operands of the expression under evaluation and the `CTX` frames of the calls
+  whose arguments are being evaluated in place: `Sim.SimX`).  The routines are given by the hypothesis
+  `Sim.RoutinesAt V img R`: every routine of the table `R` has a body of the fragment whose code,
   followed by `END`, sits at the address the image's routine table gives (as the loader lays
-  routines out), and no other name is in the image's table.
-Not covered: routine DEFINITIONS inside the block (the loader's relocation); calls in value
-positions (`[f x]`, `{… f(x) …}`).
+  routines out), no other name is in the image's table, and the routines in `V` END WITH A `return`
+  (`Sim.EndsRet`).  Built-in functions may always be called for their value.
+Why `V`: a routine that runs off its end leaves the `result` register as the last statement left it
+(the machine has no instruction that clears it), so `assign x [f]` with such an `f` assigns stale
+scratch on the machine — and on the REAL implementation — while `Sem` says `None`
+(`define f begin print 5 end  assign x [f]  print x` prints 5 twice on the real machine).  Calls as
+STATEMENTS need no such condition.
+Not covered: routine DEFINITIONS inside the block (the loader's relocation); calls in the arguments
+of `printf`, in zone and matrix ranges, in the bounds of the index-variable forms and `with`
+clauses and in the names of the sources of `repeat in` (these positions are call-free in the
+fragment).
 
 Changes of `Sem` made together with these extensions (the statements of the theorems did not change
 in form — `stk` is now a `Sim.Stk`, `C01_gen_sim_return` also says which evaluation stack is left —
@@ -98,9 +113,9 @@ What is missing for the full statement:
   statements satisfies `Sim.RoutinesAt` and has the main code, with its jumps shortened around the
   extracted routines, equal to the code of the script without the definitions (the third example
   below checks this for one script by evaluation);
-* calls in value positions: `Sem.evalRv`/`evalExpr` with a state-changing call, the value coming
-  back in `result` (`RetPost` would have to relate `σ'.result` to the register), and
-  `C02_postfix_eval` for expressions containing calls;
+* calls in the remaining value positions (arguments of `printf` — where values already queued for
+  the `printf` would have to survive the call —, ranges, loop bounds, names of sources), and value
+  calls of routines that may run off their end (see `V` above);
 Restrictions of the fragment that are forced by the MODEL (source semantics and machine disagree
 outside them; concrete scripts are at the end of this file):
 * `Sem` does not model the `result` register, the generated code uses it as scratch: a script
@@ -129,45 +144,32 @@ theorem Sim.stmts_zero : StmtsGoal V img K 0 := by
   simp only [execStmt, Prod.mk.injEq] at h
   rcases ho with rfl | rfl <;> simp at h
 
-/-- the call statement at fuel `f + 1`, given the block statements at the fuel of the body -/
-theorem Sim.stmt_call_any (f : Nat)
-    (ihB : ∀ g, g + 2 = f + 1 → ∀ r st, BlockGoal V img ⟨some (r, st), K.routines⟩ g)
-    (ihBR : ∀ g, g + 2 = f + 1 → ∀ r st, BlockRet V img ⟨some (r, st), K.routines⟩ g)
-    (hR : RoutinesAt V img K.routines) (g : String) (ps : List String) (as : Args)
-    (has : SimpleArgs as) (hnr : NoResultReg as) (hnd : ps.Nodup) :
-    StmtGoal img K (.call g ps as) (f + 1) := by
-  cases f with
-  | zero => exact stmt_call_one g ps as
-  | succ f => exact stmt_call f (ihB f rfl) (ihBR f rfl) hR g ps as has hnr hnd
-
-theorem Sim.stmts_step (f : Nat) (ihB : BlockGoal V img K f) (ihOs : OperandsGoal V img K f)
-    (ihL : LoopGoal V img K f)
-    (ihCB : ∀ g, g + 2 = f + 1 → ∀ r st, BlockGoal V img ⟨some (r, st), K.routines⟩ g)
-    (ihCBR : ∀ g, g + 2 = f + 1 → ∀ r st, BlockRet V img ⟨some (r, st), K.routines⟩ g)
-    (hR : RoutinesAt V img K.routines) : StmtsGoal V img K (f + 1) := by
+theorem Sim.stmts_step (f : Nat) (ihRv : RvToGoal V img K f) (ihCall : CallGoal V img K f)
+    (ihB : BlockGoal V img K f) (ihOs : OperandsGoal V img K f)
+    (ihL : LoopGoal V img K f) : StmtsGoal V img K (f + 1) := by
   intro st hst
   cases st with
-  | setReg r v => exact stmt_setReg f r v hst.1 hst.2
+  | setReg r v => exact stmt_setReg f ihRv r v hst.1 hst.2
   | units m => exact stmt_units f m
   | actAll k => exact stmt_actAll f k
   | setDefault => exact stmt_setDefault f
   | action k ops => exact stmt_action f ihOs k ops hst
-  | get name => exact stmt_get f name hst
+  | get name => exact stmt_get f ihRv name hst
   | wait => exact stmt_wait f
   | timeAt ps => exact stmt_timeAt f ps
-  | assign n v => exact stmt_assign f n v hst
+  | assign n v => exact stmt_assign f ihRv n v hst
   | defMacro n v => exact stmt_defMacro f n v
   | defRoutine n ps body => exact absurd hst (by simp [FragStmt])
-  | call g ps as => exact stmt_call_any f ihCB ihCBR hR g ps as hst.1 hst.2.1 hst.2.2
-  | ret v => exact stmt_ret_goal f v hst
+  | call g ps as => exact stmt_call f ihCall g ps as hst.1 hst.2
+  | ret v => exact stmt_ret_goal f v
   | ite c t e =>
     cases e with
-    | none => exact stmt_ite_none f ihB c hst.1 t hst.2.1
-    | some e => exact stmt_ite_some f ihB c hst.1 t e hst.2.1 hst.2.2
+    | none => exact stmt_ite_none f ihRv ihB c hst.1 t hst.2.1
+    | some e => exact stmt_ite_some f ihRv ihB c hst.1 t e hst.2.1 hst.2.2
   | repeat_ hd body => exact stmt_repeat f ihL hd body hst.1 hst.2
   | brk => exact stmt_brk f
-  | print v => exact stmt_print f v hst
-  | println v => exact stmt_println f v hst
+  | print v => exact stmt_print f ihRv v hst
+  | println v => exact stmt_println f ihRv v hst
   | printf fmt as => exact stmt_printf f fmt as hst.1 hst.2.1 hst.2.2
   | stage rows cols cf => exact stmt_stage f rows cols cf hst.1 hst.2
 
@@ -213,21 +215,19 @@ theorem Sim.allGoals_le (img : Image) (R : List (String × Sem.Routine)) (hR : R
     · exact ihle g hlt
     · obtain rfl : g = f + 1 := by omega
       have ih := ihle f (Nat.le_refl f)
-      exact ⟨fun r => stmts_step f (ih.block r) (ih.operands r) (ih.loop r)
-          (fun g hg r' st => (ihle g (by omega)).block (some (r', st)))
-          (fun g hg r' st => (ihle g (by omega)).blockR r' st) hR,
+      exact ⟨fun r => stmts_step f (ih.rvTo r) (ih.call r) (ih.block r) (ih.operands r) (ih.loop r),
         fun r => block_step f (ih.stmts r) (ih.block r),
         fun r => operand_step f (ih.block r), fun r => operands_step f (ih.operand r) (ih.operands r),
-        fun r => loop_step f (ih.whileI r) (ih.countI r) (fun g hg => (ihle g (by omega)).countI r),
-        fun r => while_step f (ih.block r) (ih.whileI r),
+        fun r => loop_step f (ih.rvTo r) (ih.whileI r) (ih.countI r) (fun g hg => (ihle g (by omega)).countI r),
+        fun r => while_step f (ih.rvTo r) (ih.block r) (ih.whileI r),
         fun r => count_step f (ih.block r) (ih.countI r),
-        fun r st => stmts_ret_step f (ih.blockR r st) (ih.operandsR r st) (ih.loopR r st) r st.1 st.2 rfl,
+        fun r st => stmts_ret_step f (ih.rvTo _) (ih.blockR r st) (ih.operandsR r st) (ih.loopR r st) r st.1 st.2 rfl,
         fun r st => block_ret_step f (ih.stmts _) (ih.stmtsR r st) (ih.blockR r st),
         fun r st => operand_ret_step f (ih.blockR r st),
         fun r st => operands_ret_step f (ih.operand _) (ih.operandR r st) (ih.operandsR r st),
-        fun r st => loop_ret_step f (ih.whileR r st) (ih.countR r st)
+        fun r st => loop_ret_step f (ih.rvTo _) (ih.whileR r st) (ih.countR r st)
           (fun g hg => (ihle g (by omega)).countR r st),
-        fun r st => while_ret_step f (ih.block _) (ih.blockR r st) (ih.whileR r st),
+        fun r st => while_ret_step f (ih.rvTo _) (ih.block _) (ih.blockR r st) (ih.whileR r st),
         fun r st => count_ret_step f (ih.block _) (ih.blockR r st) (ih.countR r st),
         fun r => expr_step f (ih.expr r) (ih.call r),
         fun r => call_step f hR (ih.args r) (fun r' st => ih.block (some (r', st))) (fun r' st => ih.blockR r' st),
@@ -460,7 +460,7 @@ def c01Code : List Instr := [
   .moveq (.bool true) (.reg .power), .wait, .moveq (.operand .all) (.reg .operand), .power]
 
 theorem c01Script_frag : FragBlock (fun _ => True) c01Script := by
-  simp only [c01Script, Block.ofList, FragBlock, FragStmt, FragOperands, FragOperand, RvOK, LoopHdrOK]
+  simp only [c01Script, Block.ofList, FragBlock, FragStmt, RvC, ExprC, ArgsC, FragOperands, FragOperand, RvOK, LoopHdrOK]
   refine ⟨?_, ?_, ?_, ?_, ?_, ?_, ?_, ?_, ?_, ?_, ?_, ?_⟩
   all_goals first
     | trivial
@@ -618,7 +618,7 @@ def c01Code2 : List Instr :=
   Instr.color]
 
 theorem c01Script2_frag : FragBlock (fun _ => True) c01Script2 := by
-  simp only [c01Script2, Block.ofList, FragBlock, FragStmt, FragOperands, FragOperand, RvOK, LoopHdrOK,
+  simp only [c01Script2, Block.ofList, FragBlock, FragStmt, RvC, ExprC, ArgsC, FragOperands, FragOperand, RvOK, LoopHdrOK,
     ORangeOK, RangeOK]
   refine ⟨?_, ?_, ?_, ?_, ?_, ?_, ?_, ?_, ?_, ?_, ?_, ?_, ?_⟩
   all_goals first
@@ -747,7 +747,7 @@ def callImg : Image :=
 def callRoutines : List (String × Sem.Routine) := [("down", ⟨["n"], downBody⟩)]
 
 theorem downBody_frag : FragBlock (fun _ => False) downBody := by
-  simp only [downBody, Block.ofList, FragBlock, FragStmt, RvOK, LoopHdrOK, NoResultReg]
+  simp only [downBody, Block.ofList, FragBlock, FragStmt, RvC, ExprC, ArgsC, RvOK, LoopHdrOK, NoResultReg]
   refine ⟨?_, ?_, ?_, ?_, ?_, ?_⟩
   all_goals first
     | trivial
@@ -755,7 +755,7 @@ theorem downBody_frag : FragBlock (fun _ => False) downBody := by
     | (repeat' constructor) <;> first | trivial | decide | nofun
 
 theorem mainBlock_frag : FragBlock (fun _ => False) mainBlock := by
-  simp only [mainBlock, Block.ofList, FragBlock, FragStmt, RvOK, NoResultReg]
+  simp only [mainBlock, Block.ofList, FragBlock, FragStmt, RvC, ExprC, ArgsC, RvOK, NoResultReg]
   refine ⟨?_, ?_, ?_, ?_, ?_, ?_, ?_⟩
   all_goals first
     | trivial
@@ -878,7 +878,7 @@ def c01Code3 : List Instr := [
   .move (.var "h") (.reg .result), .out .register (.reg .result), .out .print (.lit .none)]
 
 theorem c01Script3_frag : FragBlock (fun _ => True) c01Script3 := by
-  simp only [c01Script3, Block.ofList, FragBlock, FragStmt, RvOK, LoopHdrOK, WithOK]
+  simp only [c01Script3, Block.ofList, FragBlock, FragStmt, RvC, ExprC, ArgsC, RvOK, LoopHdrOK, WithOK]
   refine ⟨?_, ?_, ?_, ?_, ?_, ?_, ?_, ?_⟩
   all_goals first
     | trivial
@@ -1010,7 +1010,7 @@ def c01Code4 : List Instr := [
   .jump .always (-48), .endLoop]
 
 theorem c01Script4_frag : FragBlock (fun _ => True) c01Script4 := by
-  simp only [c01Script4, Block.ofList, FragBlock, FragStmt, RvOK, LoopHdrOK, WithOK, OWithOK,
+  simp only [c01Script4, Block.ofList, FragBlock, FragStmt, RvC, ExprC, ArgsC, RvOK, LoopHdrOK, WithOK, OWithOK,
     List.forall_mem_cons, ItemOK, List.not_mem_nil, false_imp_iff, implies_true]
   refine ⟨?_, ?_, ?_, ?_, ?_, ?_⟩
   all_goals first
@@ -1046,6 +1046,174 @@ example : (Sem.run 400 c01Script4 c01Lights2).2.vm.trace.reverse =
      .out (.str "g"), .out (.int 10), .out (.str "h"), .out (.num 20),
      .out (.str "z"), .out (.int 0), .out (.str "a"), .out (.num 120), .out (.num 120),
      .out (.str "a"), .out (.str "home")] := by decide +kernel
+
+/-! ### sixth script: calls in value positions — `[f x]` as the value of an assignment, of a register
+setting, of `print`, of a `repeat` count; calls inside `{…}` expressions (with operands of the
+expression waiting on the evaluation stack during the call); a call as the argument of a call; a
+routine that calls itself inside the expression it returns; a built-in function
+
+```
+define sq with x begin return {x * x} end
+define fact with n begin if {n <= 1} { return 1 }  return {n * fact(n - 1)} end
+assign y [sq 5]
+print {1 + sq(3) * 2}
+print [fact 4]
+hue [sq [sq 2]]   print hue
+repeat [sq 1] { print y }
+if {fact(3) > 5} { print "big" }
+println [round 2.6]
+```
+The image is the one the loader makes of the whole script: a jump over the routines, the two
+routines, the main code. -/
+
+def sqBody : Block := Block.ofList [.ret (some (.expr (.bin .mul (.var "x") (.var "x"))))]
+
+def factBody : Block := Block.ofList [
+  .ite (.expr (.bin .lte (.var "n") (.lit (.int 1)))) (Block.ofList [.ret (some (.lit (.int 1)))]) none,
+  .ret (some (.expr (.bin .mul (.var "n")
+    (.call "fact" ["n"] (.cons (.expr (.bin .sub (.var "n") (.lit (.int 1)))) .nil)))))]
+
+def valMain : Block := Block.ofList [
+  .assign "y" (.call "sq" ["x"] (.cons (.lit (.int 5)) .nil)),
+  .print (.expr (.bin .add (.lit (.int 1))
+    (.bin .mul (.call "sq" ["x"] (.cons (.lit (.int 3)) .nil)) (.lit (.int 2))))),
+  .print (.call "fact" ["n"] (.cons (.lit (.int 4)) .nil)),
+  .setReg .hue (.call "sq" ["x"] (.cons (.call "sq" ["x"] (.cons (.lit (.int 2)) .nil)) .nil)),
+  .print (.reg .hue),
+  .repeat_ (.count (.call "sq" ["x"] (.cons (.lit (.int 1)) .nil))) (Block.ofList [.print (.var "y")]),
+  .ite (.expr (.bin .gt (.call "fact" ["n"] (.cons (.lit (.int 3)) .nil)) (.lit (.int 5))))
+    (Block.ofList [.print (.lit (.str "big"))]) none,
+  .println (some (.call "round" ["x"] (.cons (.lit (.num (13/5))) .nil)))]
+
+def valWhole : Block :=
+  .cons (.defRoutine "sq" ["x"] sqBody) (.cons (.defRoutine "fact" ["n"] factBody) valMain)
+
+def sqCode : List Instr := [
+  .push (.var "x"), .push (.var "x"), .op .mul, .pop (.reg .result), .ret]
+
+def factCode : List Instr := [
+  .push (.var "n"), .pushq (.int 1), .op .lte, .pop (.reg .result), .jump .ifFalse 3,
+  .moveq (.int 1) (.reg .result), .ret, .push (.var "n"), .ctx, .push (.var "n"), .pushq (.int 1),
+  .op .sub, .pop (.reg .result), .param "n" (.reg .result), .jsr "fact", .endCtx, .push (.reg .result),
+  .op .mul, .pop (.reg .result), .ret]
+
+def valMainCode : List Instr := [
+  .ctx, .moveq (.int 5) (.reg .result), .param "x" (.reg .result), .jsr "sq", .endCtx,
+  .move (.reg .result) (.var "y"), .pushq (.int 1), .ctx, .moveq (.int 3) (.reg .result),
+  .param "x" (.reg .result), .jsr "sq", .endCtx, .push (.reg .result), .pushq (.int 2), .op .mul, .op .add,
+  .pop (.reg .result), .out .register (.reg .result), .out .print (.lit .none), .ctx,
+  .moveq (.int 4) (.reg .result), .param "n" (.reg .result), .jsr "fact", .endCtx,
+  .out .register (.reg .result), .out .print (.lit .none), .ctx, .ctx, .moveq (.int 2) (.reg .result),
+  .param "x" (.reg .result), .jsr "sq", .endCtx, .param "x" (.reg .result), .jsr "sq", .endCtx,
+  .move (.reg .result) (.reg .hue), .move (.reg .hue) (.reg .result), .out .register (.reg .result),
+  .out .print (.lit .none), .loop, .ctx, .moveq (.int 1) (.reg .result), .param "x" (.reg .result),
+  .jsr "sq", .endCtx, .move (.reg .result) (.loopVar .counter), .push (.loopVar .counter), .pushq (.int 0),
+  .op .gt, .pop (.reg .result), .jump .ifFalse 9, .move (.var "y") (.reg .result),
+  .out .register (.reg .result), .out .print (.lit .none), .push (.loopVar .counter), .pushq (.int 1),
+  .op .sub, .pop (.loopVar .counter), .jump .always (-12), .endLoop, .ctx, .moveq (.int 3) (.reg .result),
+  .param "n" (.reg .result), .jsr "fact", .endCtx, .push (.reg .result), .pushq (.int 5), .op .gt,
+  .pop (.reg .result), .jump .ifFalse 4, .moveq (.str "big") (.reg .result), .out .register (.reg .result),
+  .out .print (.lit .none), .ctx, .moveq (.num ((13 : Rat)/5)) (.reg .result), .param "x" (.reg .result),
+  .jsr "round", .endCtx, .out .register (.reg .result), .out .print (.lit .none),
+  .out .printEnd (.lit .none)]
+
+def valImg : Image :=
+  ⟨(([Instr.jump .always 30, .routine "sq"] : List Instr) ++ (sqCode ++ [Instr.end_ "sq"]) ++
+      ([Instr.routine "fact"] ++ (factCode ++ [Instr.end_ "fact"]) ++ valMainCode)).toArray,
+   [("fact", 9), ("sq", 2)]⟩
+
+def valRoutines : List (String × Sem.Routine) := [("fact", ⟨["n"], factBody⟩), ("sq", ⟨["x"], sqBody⟩)]
+
+theorem sqBody_frag : FragBlock (fun _ => True) sqBody := by
+  simp only [sqBody, Block.ofList, FragBlock, FragStmt, RvC, ExprC, ArgsC]
+  exact ⟨⟨trivial, trivial⟩, trivial⟩
+
+theorem factBody_frag : FragBlock (fun _ => True) factBody := by
+  simp only [factBody, Block.ofList, FragBlock, FragStmt, RvC, ExprC, ArgsC]
+  refine ⟨⟨⟨trivial, trivial⟩, ⟨trivial, trivial⟩, trivial⟩, ⟨trivial, trivial, ?_, ⟨trivial, trivial⟩, trivial⟩, trivial⟩
+  decide
+
+theorem valMain_frag : FragBlock (fun _ => True) valMain := by
+  simp only [valMain, Block.ofList, FragBlock, FragStmt, RvC, ExprC, ArgsC, LoopHdrOK]
+  refine ⟨?_, ?_, ?_, ?_, ?_, ?_, ?_, ?_, ?_⟩
+  all_goals first
+    | trivial
+    | decide
+    | (repeat' constructor) <;> first | trivial | decide | nofun
+
+set_option maxRecDepth 8000 in
+theorem sqBody_code : Gen.genProgram sqBody = some sqCode := by
+  simp [Gen.genProgram, sqBody, Block.ofList, genBlock, genStmt, genRv, genExpr, ins, result, pushLit, sqCode]
+
+set_option maxRecDepth 8000 in
+theorem factBody_code : Gen.genProgram factBody = some factCode := by
+  simp [Gen.genProgram, factBody, Block.ofList, genBlock, genStmt, genRv, genExpr, genIf, genCall, genParams, ins,
+    result, pushLit, factCode]
+
+set_option maxRecDepth 8000 in
+theorem valMain_code : Gen.genProgram valMain = some valMainCode := by
+  simp [Gen.genProgram, valMain, Block.ofList, genBlock, genStmt, genRv, genExpr, genIf, genLoop, genCall,
+    genParams, assembleLoop, patchBreaks_eq, patchRec, ins, counterTest, testOp, loopPost, counter, result, pushLit,
+    valMainCode]
+
+/-- the image is what the loader makes of the compiled whole script -/
+example : (Loader.load ([Instr.routine "sq"] ++ sqCode ++ [Instr.end_ "sq"] ++ [Instr.routine "fact"] ++
+      factCode ++ [Instr.end_ "fact"] ++ valMainCode)).code.toList = valImg.code.toList ∧
+    (Loader.load ([Instr.routine "sq"] ++ sqCode ++ [Instr.end_ "sq"] ++ [Instr.routine "fact"] ++
+      factCode ++ [Instr.end_ "fact"] ++ valMainCode)).routines = valImg.routines := by decide +kernel
+
+theorem valImg_routines : RoutinesAt (fun _ => True) valImg valRoutines := by
+  intro name
+  by_cases h1 : name = "fact"
+  · subst h1
+    refine ⟨factBody_frag, fun _ => by simp [factBody, Block.ofList, EndsRet], 9, "fact", rfl, ?_⟩
+    rw [resolve_of_mapM _ _ factBody_code]
+    have := CodeAt.intro (([Instr.jump .always 30, .routine "sq"] : List Instr) ++ (sqCode ++ [Instr.end_ "sq"]) ++
+      [Instr.routine "fact"]) (factCode ++ [Instr.end_ "fact"]) valMainCode [("fact", 9), ("sq", 2)]
+    have hl : sqCode.length = 5 := rfl
+    simpa [valImg, hl] using this
+  · by_cases h2 : name = "sq"
+    · subst h2
+      refine ⟨sqBody_frag, fun _ => by simp [sqBody, Block.ofList, EndsRet], 2, "sq", rfl, ?_⟩
+      rw [resolve_of_mapM _ _ sqBody_code]
+      exact CodeAt.intro [Instr.jump .always 30, .routine "sq"] (sqCode ++ [Instr.end_ "sq"])
+        ([Instr.routine "fact"] ++ (factCode ++ [Instr.end_ "fact"]) ++ valMainCode) _
+    · have e1 : ("fact" == name) = false := by
+        simp only [beq_eq_false_iff_ne, ne_eq]; exact fun e => h1 e.symm
+      have e2 : ("sq" == name) = false := by
+        simp only [beq_eq_false_iff_ne, ne_eq]; exact fun e => h2 e.symm
+      simp [valRoutines, e1, e2, valImg, Image.routine?]
+
+theorem valMain_sem :
+    (execBlock 400 valMain { vm := Vm.init [], routines := valRoutines }).1 = .normal := by
+  decide +kernel
+
+/-- `C01_once_each_in_order` applied: started at the main code (where the initial jump leads),
+the machine leaves exactly the source-level trace -/
+example : ∃ k, (run valImg k { Vm.init [] with pc := 30 }).trace =
+    (execBlock 400 valMain { vm := Vm.init [], routines := valRoutines }).2.vm.trace := by
+  have hc : CodeAt valImg 30 valMainCode := by
+    have := CodeAt.intro (([Instr.jump .always 30, .routine "sq"] : List Instr) ++ (sqCode ++ [Instr.end_ "sq"]) ++
+      ([Instr.routine "fact"] ++ (factCode ++ [Instr.end_ "fact"]))) valMainCode [] [("fact", 9), ("sq", 2)]
+    have hl : sqCode.length = 5 := rfl
+    have hl2 : factCode.length = 20 := rfl
+    simpa [valImg, hl, hl2] using this
+  have hsim : Sim ⟨none, valRoutines⟩ {} { vm := Vm.init [], routines := valRoutines }
+      { Vm.init [] with pc := 30 } :=
+    ⟨rfl, rfl, LoopsOnly.nil, rfl, EvOk.nil, rfl, ⟨rfl, rfl⟩, rfl, ⟨⟨.logical, rfl⟩, rfl⟩, rfl, rfl, rfl, rfl, rfl, rfl, rfl,
+      fun _ _ => rfl⟩
+  obtain ⟨k, hk, _⟩ := C01_once_each_in_order valImg valRoutines valImg_routines valMain
+    valMain_frag valMainCode valMain_code 400 _ _ _ 30 hsim rfl hc (eq_of_fst valMain_sem)
+  exact ⟨k, hk⟩
+
+/-- by evaluation: the whole script (definitions first) through the loader and the machine, and
+through `Sem.run` -/
+example : (Vm.finish (Vm.run valImg 3000 (Vm.init []))).trace =
+    .flush :: (Sem.run 400 valWhole []).2.vm.trace := by decide +kernel
+
+example : (Sem.run 400 valWhole []).2.vm.trace.reverse =
+    [.out (.int 19), .out (.int 24), .out (.int 16), .out (.int 25), .out (.str "big"), .out (.int 3),
+     .newline] := by decide +kernel
 
 /-! ### why the fragment excludes reading `result` and `setReg unitMode`: on these scripts the
 source semantics and the machine (both of the MODEL) disagree
